@@ -330,8 +330,12 @@ def exactly_once_rule(ctx, rid):
             if len(comp_iters) == 1 and not for_loops and len(comp_iters[0].generators) == 1 and norm(comp_iters[0].generators[0].iter) == sp \
                     and not comp_iters[0].generators[0].ifs:
                 it_ok = True
-            if conds or not it_ok:
+            filtered = any(isinstance(l, (ast.ListComp, ast.GeneratorExp)) and any(g_.ifs for g_ in l.generators) for l in comp_iters)
+            nested_twice = len(for_loops) + len(comp_iters) > 1 and sum(1 for l in for_loops if norm(l.iter) == sp) + sum(1 for l in comp_iters for g_ in l.generators if norm(g_.iter) == sp) >= 1
+            if conds or filtered or nested_twice:
                 rr.bad(ctx.finding(rid, h, c, "`%s` is not evaluated exactly once per element of `settings` (conditional, filtered or nested iteration)" % norm(c)[:50], construct="eval-not-once " + h.name), "%s once per setting" % h.name)
+            elif not it_ok:
+                raise AnalysisError("idiom changed: where %s evaluates `%s` (not directly in one loop over `settings`)" % (h.name, norm(c)[:40]))
             else:
                 kwsplat = [k for k in c.keywords if k.arg is None]
                 rr.ok("%s: `%s` once per element of settings, unconditionally" % (h.name, norm(c)[:50]))
@@ -831,6 +835,8 @@ def placeholder_rule(ctx, rid):
     g = build_cfg(pr.node)
     fl = Flow(g, {"flat": FALSE, "cases": TRUTHY, "has_cases": TRUE}).run()
     uf = [(n, c) for n, c, nm in all_calls(ctx, pr, g) if nm == CR + "._unflatten" and n.id in fl.visited]
+    if len(uf) == 0:
+        raise AnalysisError("idiom changed: with cases and nested output no _unflatten call is reachable in %s itself (the nesting was moved into a helper)" % pr.qualname)
     if len(uf) != 1:
         rr.bad(ctx.finding(rid, pr, pr.node, "with cases and nested output %d _unflatten calls are reachable" % len(uf), construct="unflatten-count"), "one unflatten")
         return rr
@@ -1030,6 +1036,8 @@ def row_pairing_rule(ctx, rid, entry=TO_DS, flags=None, title=None):
         if truth(val["to_df"]) and not df_sinks:
             raise AnalysisError("idiom changed: with to_df no pairing of the recorded settings with the flat results was observed in results_to_df (%s)" % vt)
         for (mfi, e, base, key, why, st) in inter.missing_keys:
+            if base == "info" and mfi is not f:
+                raise AnalysisError("idiom changed: `%s` is read in %s, to which `info` is handed as an argument (the keys written before the call are not followed there)" % (norm(e), mfi.qualname))
             if base == "info":
                 rr.bad(ctx.finding(rid, mfi, e, "`%s` is read while `info` is %s (%s): the labelling side channel was not requested / not filled in this configuration" % (norm(e), why, vt),
                                    construct="info-read-missing " + key, path=vt), "info[%s] defined [%s]" % (key, vt))
